@@ -114,7 +114,61 @@ NEAR = {"laplace": ("laplace_kernel", "laplace_single_layer"), "helmholtz": ("he
         "modified_helmholtz": ("modified_helmholtz_kernel", "modified_helmholtz_single_layer")}
 
 
+def replay_near_field_numeric(mode):
+    """Native: fmm.helpers.<mode>_kernel (2 targets x 3 sources, one call) against the dense single-layer kernel and its target gradient (central differences of the
+    closed form), for wavenumbers with positive, zero and negative imaginary part and for purely imaginary ones."""
+    from bempp_cl.api.fmm import helpers as FH
+
+    warnings.simplefilter("ignore")
+    fname, key = NEAR[mode]
+    rng = np.random.RandomState(6)
+    T, Y = rng.uniform(-1, -0.2, (3, 2)), rng.uniform(0.2, 1.0, (3, 3))
+    pars = {"laplace": [[]], "modified_helmholtz": [[0.7], [2.5]], "helmholtz": [[1.2, 0.0], [1.2, 0.4], [1.2, -0.4], [0.0, 0.6], [0.0, -0.6]]}[mode]
+    worst, bad = 0.0, []
+    f = KR.pyfunc(getattr(FH, fname))
+    for par in pars:
+        cplx = mode == "helmholtz"
+        got = np.asarray(f(T, Y, np.array(par, dtype="float64"), np.dtype("float64"), np.dtype("complex128" if cplx else "float64")))
+        for ti in range(2):
+            for j in range(3):
+                def G(x):
+                    return complex(KS.SPEC[key](x, Y[:, j], None, None, par))
+                ref = [G(T[:, ti])]
+                h = 1e-6
+                for i in range(3):
+                    e = np.zeros(3)
+                    e[i] = h
+                    ref.append((G(T[:, ti] + e) - G(T[:, ti] - e)) / (2 * h))
+                for c in range(4):
+                    val = complex(got[4 * (ti * 3 + j) + c])
+                    err = abs(val - ref[c]) / max(1e-300, abs(ref[c]))
+                    tol = 1e-12 if c == 0 else 1e-6
+                    worst = max(worst, err if c == 0 else 0.0)
+                    if err > tol:
+                        bad.append({"parameters": par, "target": ti, "source": j, "component": c, "got": [val.real, val.imag], "required": [ref[c].real, ref[c].imag]})
+    return {"violates": bool(bad), "bad": bad[:4], "worst_value_error": worst}
+
+
+def ob_near_field_numeric(mode):
+    r = replay_near_field_numeric(mode)
+    if r["violates"]:
+        return violated("%s_kernel differs from the dense single-layer kernel / its gradient: %s" % (mode, r["bad"][:2]), witness=r["bad"][0], signature="near-kernel-numeric/" + mode,
+                        replay={"callable": "checks.c17:replay_near_field_numeric", "kwargs": {"mode": mode}, "confirmed": True})
+    return held("values to %.1e, gradients to 1e-6 (central differences), wavenumbers with Im k > 0, = 0, < 0 and purely imaginary" % r["worst_value_error"])
+
+
 def ob_near_field_kernel(mode):
+    try:
+        return _ob_near_field_kernel(mode)
+    except S.Undecided as ex:
+        rp = replay_near_field_numeric(mode)
+        if rp["violates"]:
+            return violated("%s_kernel branches on its data (%s) and differs from the dense kernel natively: %s" % (mode, ex, rp["bad"][:2]), witness=rp["bad"][0],
+                            signature="near-kernel/%s/branch" % mode, replay={"callable": "checks.c17:replay_near_field_numeric", "kwargs": {"mode": mode}, "confirmed": True})
+        return undecided("%s_kernel branches on symbolic values (%s); the native comparison holds" % (mode, ex))
+
+
+def _ob_near_field_kernel(mode):
     """post: fmm.helpers.<mode>_kernel for one target / one source (x != y): component 0 == dense single-layer kernel of the same mode, components
     1..3 == its gradient with respect to the target point; slot layout 4*(ntargets-index*nsources + j) + i."""
     from bempp_cl.api.fmm import helpers as FH
@@ -381,6 +435,8 @@ def main():
     run.add("fmm.helpers.numba_evaluate_local_interactions::post", "post", ob_local_interactions, "evaluate")
     for op, dk, tk in BOUNDARY_CASES:
         run.add("fmm==dense.%s[%s%d -> %s%d]" % (op, dk[0], dk[1], tk[0], tk[1]), "bounded", ob_fmm_boundary, op, dk, tk, thorough)
+    for mode in NEAR:
+        run.add("fmm.helpers.%s_kernel::numeric(signs of Im k)" % mode, "bounded", ob_near_field_numeric, mode)
     for mod, name, k, sk in POTENTIALS:
         run.add("fmm==dense.potential.%s.%s" % (mod, name), "bounded", ob_fmm_potential, mod, name, k, sk)
     run.add("reference-vectors", "bounded", ob_reference_vectors)
